@@ -852,6 +852,12 @@ def describe(r):
 
 
 def check(tier, seed, procs):
+    # first phase: the same request delivered twice CONCURRENTLY (statement-level interleavings of _create_batch ||
+    # _create_batch, _create_batch_update || _create_batch_update, create / create-fast handlers, under the row- and
+    # gap-lock model of vf/txmc.py; catalogue and oracle in vf/txpairs.py, C09_PAIRS).  Never raises; merged at the end.
+    from vf import txpairs
+
+    phase = txpairs.run_phase(tier, procs, ('C09',))
     world()
     items = []
     n_cases = {}
@@ -940,13 +946,15 @@ def check(tier, seed, procs):
         vac = f'nothing interesting explored: {tot}'
     if cov['fast_path_scenarios'] == 0 or cov['multi_bunch_scenarios'] == 0:
         vac = 'fast path or multi-bunch path never taken'
-    return {'coverage': cov, 'violations': violations, 'assumptions': ASSUME, 'vacuous': vac}
+    return txpairs.merge_into({'coverage': cov, 'violations': violations, 'assumptions': ASSUME, 'vacuous': vac}, phase)
 
 
 ASSUME = bf.ASSUME[:3] + [
     'the front end serves one request at a time: a duplicate is delivered after the original has been processed completely '
     '(lost-response retries), never concurrently with it; the second client\'s whole update runs between two transactions of '
-    'the request being served; statements of different transactions are not interleaved',
+    'the request being served; statements of different transactions are not interleaved (main enumeration only: the first '
+    'phase, coverage.statement_interleavings, delivers the create / create-fast / update-creation request twice CONCURRENTLY and '
+    'explores every statement-level interleaving under the lock model stated below)',
     'transport = in-process: the real hailtop Session + retry_transient_errors above a fake http session that calls the handler '
     'registered in front_end.routes for the path (auth decorators stripped, userdata of u1); a lost response is a '
     'ServerDisconnectedError raised after the handler finished; the jittered retry delay is fixed to 50 ms of virtual time',
@@ -960,6 +968,10 @@ ASSUME = bf.ASSUME[:3] + [
 
 
 def replay(obj):
+    if 'txpair' in obj:
+        from vf import txpairs
+
+        return txpairs.replay(obj, monitors=('C09',))
     scn = tuple(obj['scn'])
     inter = tuple(obj['inter']) if obj.get('inter') else None
     viols, r = evaluate(scn, inter, obj.get('faults'))
